@@ -106,24 +106,38 @@ def random_configs(rnd, n):
         yield lut, wins, dls, rnd.choice([4, 4, 8, 16]), poldep
 
 
-def records(ck, rnd):
+def with_motion(rnd, r, lut, wins, dls, cap):
+    """C04: the same configuration shifted / scaled, through the real kernel again."""
+    sd, sf = rnd.choice([1, 7, 64]), rnd.choice([2, 4])
+    mv = lambda w, f: [f(v) if -INF < v < INF else v for v in w]
+    zs = run_kernel(lut, [mv(w, lambda v: v + sd) for w in wins], dls, cap)
+    zc = run_kernel(lut, [mv(w, lambda v: v * sf) for w in wins], [[[x * sf for x in row] for row in d] for d in dls], cap)
+    r.update(sd=sd, sf=sf, zs=[] if zs['raised'] else zs['z'], zc=[] if zc['raised'] else zc['z'])
+    return r
+
+
+def records(ck, rnd, motion=False):
     names = prim_names()
     recs = []
     # complete domain of the quick model config (polarity independent): 17 424 configurations
     for lut, wins, dls, cap in complete_domain([30583, 26214, 34952, 61166], 3, 2, [0, 1, 3], 4, False):
         r = run_kernel(lut, wins, dls, cap)
-        r.update(prim=names.get(lut, '?'), poldep=False)
+        r.update(prim=names.get(lut, '?'), poldep=False, sd=0, sf=1, zs=[], zc=[])
+        if motion:
+            with_motion(rnd, r, lut, wins, dls, cap)
         recs.append(r)
     ncomplete = len(recs)
     if ck.thorough:
         for lut, wins, dls, cap in complete_domain([30583, 26214], 3, 2, [0, 2], 4, True):
             r = run_kernel(lut, wins, dls, cap)
-            r.update(prim=names.get(lut, '?'), poldep=True)
+            r.update(prim=names.get(lut, '?'), poldep=True, sd=0, sf=1, zs=[], zc=[])
             recs.append(r)
         ncomplete = len(recs)
     for lut, wins, dls, cap, poldep in random_configs(rnd, ck.pick(6000, 60000)):
         r = run_kernel(lut, wins, dls, cap)
-        r.update(prim=names.get(lut, '?'), poldep=poldep)
+        r.update(prim=names.get(lut, '?'), poldep=poldep, sd=0, sf=1, zs=[], zc=[])
+        if motion:
+            with_motion(rnd, r, lut, wins, dls, cap)
         recs.append(r)
     return recs, ncomplete
 
@@ -150,7 +164,7 @@ def run(ck, rnd, pids, design=True):
             if r.rc != 0:
                 raise MachineryError('design run %s: the kernel MODEL violates %s - specification bug' % (cfg, r.invariant_violations))
             ck.log('kernel model', cfg, r.distinct, 'distinct states', '%.1fs' % r.wall)
-    recs, ncomplete = records(ck, rnd)
+    recs, ncomplete = records(ck, rnd, motion=('C04' in pids))
     ck.count('kernel-configs-complete-domain', ncomplete)
     ck.count('kernel-configs-random', len(recs) - ncomplete)
     ck.count('kernel-overflows', sum(1 for x in recs if x['z'] and x['z'][-1] == INF + 1))
@@ -172,5 +186,6 @@ def run(ck, rnd, pids, design=True):
 
 def replay(ck, mt):
     r = run_kernel(mt['lut'], mt['win'], mt['dl'], mt['cap'])
-    r.update(prim=mt['prim'], poldep=mt['poldep'])
+    r.update(prim=mt['prim'], poldep=mt['poldep'], sd=0, sf=1, zs=[], zc=[])
+    with_motion(__import__('random').Random(1), r, mt['lut'], mt['win'], mt['dl'], mt['cap'])
     judge(ck, [r], ('C03', 'C04', 'C05', 'C13'))
